@@ -227,6 +227,26 @@ class IndexClient(PathClient):
             return 1
         if isinstance(e, ast.Compare) and len(e.ops) == 1:
             a, b, op = self._subst(e.left), self._subst(e.comparators[0]), e.ops[0]
+            # X.find(..) / X.rfind(..) / X.index(..) returned an index >= 0: X has at least index + 1 characters
+            if isinstance(a, ast.Call) and isinstance(a.func, ast.Attribute) and a.func.attr in ('find', 'rfind', 'index') and src_of(a.func.value) == X \
+                    and isinstance(b, (ast.Constant, ast.UnaryOp)):
+                try:
+                    c = ast.literal_eval(b)
+                except ValueError:
+                    c = None
+                if isinstance(c, int) and not isinstance(c, bool):
+                    opn = type(op)
+                    if not truth:
+                        opn = {ast.Lt: ast.GtE, ast.GtE: ast.Lt, ast.Gt: ast.LtE, ast.LtE: ast.Gt, ast.Eq: ast.NotEq, ast.NotEq: ast.Eq}.get(opn)
+                    if opn is ast.Gt and c >= -1:
+                        return c + 2
+                    if opn is ast.GtE and c >= 0:
+                        return c + 1
+                    if opn is ast.NotEq and c == -1:
+                        return 1
+                    if opn is ast.Eq and c >= 0:
+                        return c + 1
+                return 0
             la, lb = linear(a), linear(b)
             if la is None or lb is None:
                 return 0
